@@ -119,6 +119,15 @@ if __name__ == '__main__':
         main()
     except SystemExit:
         raise
+    except (IndexError, SystemError) as ex:
+        # an IndexError escaping from the real code (interpreted py_func, or compiled under
+        # NUMBA_BOUNDSCHECK=1, where it may surface as SystemError) is an out-of-bounds access
+        import traceback
+        traceback.print_exc()
+        if isinstance(ex, IndexError) or isinstance(ex.__cause__, IndexError) or 'IndexError' in repr(ex.__cause__) or 'out of bounds' in str(ex):
+            print('   uncaught out-of-bounds access in the real code:', repr(ex))
+            sys.exit(1)
+        sys.exit(3)
     except BaseException:
         import traceback
         traceback.print_exc()
